@@ -147,7 +147,7 @@ def queue_rules(R, P):
 
     # ---------------------------------------------------------------- who may reorder / resize the two arrays
     allowed = {
-        "aws_array_list_swap": {"container": {"s_swap"}},
+        "aws_array_list_swap": {"container": {"s_swap"}, "backpointers": {"s_swap"}},  # s_swap: its own rules require the same two indices for both
         "aws_array_list_push_back": {"container": {"aws_priority_queue_push_ref"}},
         "aws_array_list_pop_back": {"container": {"s_remove_node", "aws_priority_queue_push_ref"}, "backpointers": {"s_remove_node"}},
         "aws_array_list_clear": {"container": {"aws_priority_queue_clear"}, "backpointers": {"aws_priority_queue_clear"}},
@@ -170,7 +170,7 @@ def queue_rules(R, P):
     # ---------------------------------------------------------------- s_swap
     f = fns["s_swap"]
     dom = dominators(f)
-    sw = f.calls("aws_array_list_swap")
+    sw = [e for e in f.calls("aws_array_list_swap") if (RU.strip_addr(f, RU.arg(f, e.node, 0)) or {}).get("f") != "backpointers"]
     R.check(len(sw) == 1 and [argstr(f, sw[0].node, i, addr=False) for i in (1, 2)] == ["a", "b"], "LOCKSTEP", "swap:elements", where(f, sw[0]) if sw else "s_swap", "elements a and b exchanged")
     slots = {}
     for e in f.all_events():
@@ -181,34 +181,72 @@ def queue_rules(R, P):
                     x = f.d(init["a"][0])
                     if x["k"] == "index" and "backpointers.data" in f.show(x["a"][0]):
                         slots[f.canon(v["n"])] = f.show(x["a"][1])
-    R.check(sorted(slots.values()) == ["a", "b"], "LOCKSTEP", "swap:slot-pointers", "s_swap()", "slot pointers address backpointers[a] and backpointers[b] (%s)" % slots,
-            "the handle slots addressed are %s, expected indices a and b" % slots)
     stores = [e for e in f.field_accesses(rec="aws_priority_queue_node", field="current_index", modes=("w",))]
-    seen = {}
-    for s in stores:
-        base = RU.uncast(f, s.node["a"][0])
-        a_ = _assignment_of(f, s)
-        if base is not None and base["k"] == "un" and base["op"] == "deref" and a_ is not None:
-            slot = f.show(base["a"][0])
-            seen[slot] = f.show(a_["a"][1])
-    okst = len(seen) == 2 and all(slots.get(k) == v for k, v in seen.items())
-    R.check(okst, "LOCKSTEP", "swap:handles-get-their-new-slot", "s_swap()", "the node now in slot a gets index a, the node in slot b gets index b (%s)" % seen,
-            "after the exchange a handle is given the wrong index (%s; slots %s): remove-by-handle would remove another element" % (seen, slots))
-    # exchange precedes the index stores: three slot writes (*bp_a = *bp_b; *bp_b = tmp) dominate both stores
+    # the handle exchange: written out through the two slot pointers (*bp_a = *bp_b; *bp_b = tmp), or one
+    # aws_array_list_swap(&queue->backpointers, a, b) with the indices of the element exchange
     slotw = [e for e in f.all_events() if e.kind == "access" and e.node["k"] == "un" and e.node["op"] == "deref" and e.mode == "w" and f.show(e.node["a"][0]) in slots]
-    R.check(len(slotw) == 2 and all(ev_dominates(f, w, s, dom) for w in slotw for s in stores), "LOCKSTEP", "swap:exchange-before-reindex", "s_swap()", "handle slots exchanged before the indices are rewritten",
-            "the handle slots are not both exchanged before the indices are rewritten")
-    xs = {f.show(w.node["a"][0]): f.show(_assignment_of(f, w)["a"][1]) for w in slotw if _assignment_of(f, w)}
-    tmpv = [v for v in xs.values() if not v.startswith("*")]
-    R.check(len(xs) == 2 and any(v.startswith("*") and v[1:] in slots and v[1:] != k for k, v in xs.items()) and len(tmpv) == 1, "LOCKSTEP", "swap:slots-really-exchanged", "s_swap()", "slot contents exchanged through a temporary (%s)" % xs)
-    # each index store depends only on `handle array present` and on its own slot holding a handle
-    for s in stores:
+    bsw = [e for e in f.calls("aws_array_list_swap") if (RU.strip_addr(f, RU.arg(f, e.node, 0)) or {}).get("f") == "backpointers"]
+    sw = [e for e in sw if e not in bsw]
+    by_call = bool(bsw) and not slotw
+    exchange = bsw if by_call else slotw
+
+    def bp_index(x):
+        x = RU.uncast(f, x)
+        if x is not None and x["k"] == "index" and "backpointers.data" in f.show(x["a"][0], alias=True):
+            return f.show(x["a"][1])
+        return None
+
+    def slot_of(s):
+        """(slot index, the expression naming the handle, event that reads the slot) for an index store"""
         base = RU.uncast(f, s.node["a"][0])
-        own = f.show(base["a"][0]) if base is not None and base["k"] == "un" and base["op"] == "deref" else None
-        foreign = [f.show(f.d(c_)) for c_, p_, b_ in RU.guards(f, s, dom) if any(o != own and ("*" + o) in f.show(f.d(c_)) for o in slots)]
-        R.check(own in slots and not foreign, "LOCKSTEP", "swap:reindex-%s-unconditional" % own, where(f, s), "the index of the handle in slot %s is rewritten whenever that slot holds a handle" % slots.get(own),
-                "the index store for slot %s is skipped depending on the other slot (%s): when both elements carry handles one of them keeps its old index" % (slots.get(own), foreign))
-    R.check(len(sw) == 1 and all(ev_dominates(f, sw[0], s, dom) for s in stores), "LOCKSTEP", "swap:elements-and-handles-together", "s_swap()", "element exchange and handle exchange happen in the same call")
+        if base is None:
+            return None, None, None
+        if base["k"] == "un" and base["op"] == "deref" and f.show(base["a"][0]) in slots:
+            return slots[f.show(base["a"][0])], f.show(base), s  # read in place, through the slot pointer
+        if base["k"] == "var" and base.get("sc") == "local":
+            decls = [(e, v) for e in f.all_events() if e.kind == "decl" for v in e.node["vars"] if v["n"] == base["n"] and v.get("init") is not None]
+            if len(decls) == 1 and bp_index(decls[0][1]["init"]) is not None:
+                return bp_index(decls[0][1]["init"]), base["n"], decls[0][0]
+        if bp_index(base) is not None:
+            return bp_index(base), f.show(base), s
+        return None, None, None
+    seen, names = {}, {}
+    fresh_reads = True
+    for s_ in stores:
+        a_ = _assignment_of(f, s_)
+        idx, nm, rd = slot_of(s_)
+        if idx is not None and a_ is not None:
+            seen[idx] = f.show(a_["a"][1])
+            names[idx] = nm
+            fresh_reads = fresh_reads and all(ev_dominates(f, x, rd, dom) for x in exchange)
+    if not by_call:
+        R.check(len(sw) == 1 and sorted(slots.values()) == ["a", "b"], "LOCKSTEP", "swap:slot-pointers", "s_swap()", "slot pointers address backpointers[a] and backpointers[b] (%s)" % slots,
+                "the handle slots addressed are %s, expected indices a and b" % slots)
+    else:
+        ia = sorted(argstr(f, bsw[0].node, i, addr=False) for i in (1, 2))
+        R.check(len(bsw) == 1 and ia == ["a", "b"], "LOCKSTEP", "swap:slot-pointers", "s_swap()", "aws_array_list_swap exchanges backpointers[a] and backpointers[b]",
+                "the handle slots exchanged are %s, expected indices a and b" % ia)
+    okst = len(seen) == 2 and sorted(seen) == ["a", "b"] and all(k == v for k, v in seen.items())
+    R.check(okst and fresh_reads, "LOCKSTEP", "swap:handles-get-their-new-slot", "s_swap()", "the node now in slot a gets index a, the node in slot b gets index b (%s)" % seen,
+            "after the exchange a handle is given the wrong index (%s; slots %s; read after the exchange: %s): remove-by-handle would remove another element" % (seen, slots, fresh_reads))
+    # the exchange precedes the index stores
+    R.check(len(exchange) == (1 if by_call else 2) and all(ev_dominates(f, w, s_, dom) for w in exchange for s_ in stores), "LOCKSTEP", "swap:exchange-before-reindex", "s_swap()", "handle slots exchanged before the indices are rewritten",
+            "the handle slots are not both exchanged before the indices are rewritten")
+    if not by_call:
+        xs = {f.show(w.node["a"][0]): f.show(_assignment_of(f, w)["a"][1]) for w in slotw if _assignment_of(f, w)}
+        tmpv = [v for v in xs.values() if not v.startswith("*")]
+        R.check(len(xs) == 2 and any(v.startswith("*") and v[1:] in slots and v[1:] != k for k, v in xs.items()) and len(tmpv) == 1, "LOCKSTEP", "swap:slots-really-exchanged", "s_swap()", "slot contents exchanged through a temporary (%s)" % xs)
+    else:
+        R.check(len(bsw) == 1, "LOCKSTEP", "swap:slots-really-exchanged", "s_swap()", "slot contents exchanged by aws_array_list_swap")
+    # each index store depends only on `handle array present` and on its own slot holding a handle
+    for s_ in stores:
+        idx, own, rd = slot_of(s_)
+        others = [nm for k, nm in names.items() if k != idx and nm]
+        foreign = [f.show(f.d(c_)) for c_, p_, b_ in RU.guards(f, s_, dom) if any(__import__("re").search(r"(?<![A-Za-z0-9_])" + __import__("re").escape(o) + r"(?![A-Za-z0-9_])", f.show(f.d(c_))) for o in others)]
+        R.check(idx is not None and not foreign, "LOCKSTEP", "swap:reindex-%s-unconditional" % (("*" + [k for k, v in slots.items() if v == idx][0]) if not by_call and idx in slots.values() else idx), where(f, s_), "the index of the handle in slot %s is rewritten whenever that slot holds a handle" % idx,
+                "the index store for slot %s is skipped depending on the other slot (%s): when both elements carry handles one of them keeps its old index" % (idx, foreign))
+    R.check(len(sw) == 1 and all(ev_dominates(f, sw[0], s_, dom) for s_ in stores), "LOCKSTEP", "swap:elements-and-handles-together", "s_swap()", "element exchange and handle exchange happen in the same call")
+    slotw = exchange
 
     # ---------------------------------------------------------------- the three maintenance sites agree on `handle array present`
     def presence(fname, evs):
@@ -359,15 +397,17 @@ def queue_rules(R, P):
     inval = [e for e in f.field_accesses(rec="aws_priority_queue_node", field="current_index", modes=("w",))]
     clr = f.calls("aws_array_list_clear")
     okc = len(inval) == 1 and len(clr) == 2 and all(c in RU.reach_from(f, inval[0]) for c in clr) and f.is_const(_assignment_of(f, inval[0])["a"][1]) == SIZE_MAX
-    loops = [b for b in f.blocks.values() if b.term == "for" and b.cond is not None]
     def _len_of_handles(n_):
         o_ = RU.origin(f, n_)
         return o_ is not None and ((o_["k"] == "call" and o_.get("callee") == "aws_array_list_length" and argstr(f, o_, 0) == "queue->backpointers") or f.show(o_) == "queue->backpointers.length")
     okl = False
-    for b in loops:
-        g_ = RU.cmp_norm(f, b.cond, True)
-        if g_ and g_[2] is not None and ((g_[1] == "<" and _len_of_handles(g_[2])) or (g_[1] == ">" and _len_of_handles(g_[0]))):
-            okl = True  # the loop runs over every slot of the handle array
+    from sa.num import Num as _Num
+    for h_, body_ in _Num(f, P, None).loops().items():
+        cv = RU.loop_cover(f, h_, body_)
+        # the loop presents every slot index 0 <= i < length of the handle array (counting up or down) and the store is inside
+        if cv and cv[2] in ("up", "down") and _len_of_handles(cv[1]) and inval and inval[0].blk in body_:
+            reads = [e for e in f.calls(("aws_array_list_get_at", "aws_array_list_get_at_ptr")) if e.blk in body_ and argstr(f, e.node, 0) == "queue->backpointers"]
+            okl = any(f.show(RU.uncast(f, RU.arg(f, e.node, 2))) == cv[0] for e in reads)
     R.check(okc and okl, "INVALIDATE", "clear:marks-every-handle", "%s()" % f.name, "every registered handle is marked not-in-queue before both arrays are cleared",
             "clear does not mark every handle not-in-queue before clearing")
     f = fns["aws_priority_queue_node_init"]
